@@ -1,20 +1,94 @@
-(* C06 — gradients are the derivatives of the evaluated function.  Statements only
-   (filled from Eval/DerivSem.v). *)
-From Coq Require Import List.
-From LF Require Import Base.Opcode Base.Num Eval.Deriv.
+(* C06 — gradients are the derivatives of the evaluated function.  Statements only;
+   proofs are in Eval/DerivSem.v.  [RD] is the real-number reading of every opcode,
+   [vk] its value kernel, [dkern] (Eval/Deriv.v) the model of the derivative kernels of
+   eval_deriv_array.cpp / eval_jacobian.cpp that the correspondence check runs against
+   the implementation, [vpass1]/[dpass1] (Eval/EvalState.v) the value / derivative pass
+   over a tape. *)
+From Coq Require Import Reals List.
+From Coquelicot Require Import Coquelicot.
+From LF Require Import Base.Opcode Base.Num Eval.Deck Eval.EvalState Eval.Deriv Eval.DerivSem.
+Local Open Scope R_scope.
 
-(* at a min/max clause the kernel returns exactly one branch's gradient, tie or not *)
-Theorem C06_minmax_branch :
-  forall (num : Type) (O : ops num) cv av bv ov (ad bd : dvec),
-    (dkern O cv OP_MIN av bv ov ad bd = ad \/ dkern O cv OP_MIN av bv ov ad bd = bd) /\
-    (dkern O cv OP_MAX av bv ov ad bd = ad \/ dkern O cv OP_MAX av bv ov ad bd = bd).
-Proof. intros; simpl; destruct (o_ltb O av bv); auto. Qed.
+(* the chain rule, for every opcode: where the opcode is differentiable ([smooth_at]) and,
+   for pow / nth_root / mod, the second argument does not move, the kernel's output is
+   the derivative of the value kernel composed with the arguments *)
+Theorem C06_kernel_correct :
+  forall (op : opcode) (a b : R -> R) (t ad bd : R),
+    is_derive a t ad -> is_derive b t bd ->
+    smooth_at op (a t) (b t) ->
+    (const_b op -> locally t (fun s => b s = b t)) ->
+    is_derive (fun s => vk op (a s) (b s)) t (dk op (a t) (b t) (vk op (a t) (b t)) ad bd).
+Proof. exact kernel_correct. Qed.
+
+(* the three-component kernel is the scalar kernel on each component *)
+Theorem C06_kernel_componentwise :
+  forall (num : Type) (O : ops num) cv op av bv ov (ad bd : @dvec num),
+    dkern O cv op av bv ov ad bd =
+    (dkern1 O cv op av bv ov (pr1 ad) (pr1 bd),
+     dkern1 O cv op av bv ov (pr2 ad) (pr2 bd),
+     dkern1 O cv op av bv ov (pr3 ad) (pr3 bd)).
+Proof. exact @dkern_componentwise. Qed.
+
+(* whole tapes: every slot's derivative along any differentiable family of leaf values *)
+Theorem C06_deriv_correct :
+  forall (tape : list clause) (leafv : R -> nat -> R) (leafd : nat -> R) (t : R),
+    wf tape ->
+    (forall s, leaf tape s -> is_derive (fun u => leafv u s) t (leafd s)) ->
+    tape_smooth tape leafv t ->
+    forall s, is_derive (fun u => vpass1 vk tape (leafv u) s) t
+                        (dpass1 dk tape (vpass1 vk tape (leafv t)) leafd s).
+Proof. exact deriv_correct. Qed.
+
+(* DerivArrayEvaluator::derivs: the returned triple is (d/dx, d/dy, d/dz), with or
+   without a const-var barrier in the tape *)
+Theorem C06_gradient_correct :
+  forall (tape : list clause) (lv : nat -> R) (sx sy sz : nat) (x y z : R) (isconst : nat -> Prop),
+    wf tape -> sx <> sy -> sx <> sz -> sy <> sz ->
+    (forall s, isconst s -> leaf tape s /\ s <> sx /\ s <> sy /\ s <> sz) ->
+    tape_smooth_pt tape (pt3 lv sx sy sz x y z) isconst ->
+    forall s,
+      let G := dpass1 (dkern RD false) tape (vpass1 vk tape (pt3 lv sx sy sz x y z)) (seed3 sx sy sz) s in
+      is_derive (fun u => vpass1 vk tape (pt3 lv sx sy sz u y z) s) x (pr1 G) /\
+      is_derive (fun u => vpass1 vk tape (pt3 lv sx sy sz x u z) s) y (pr2 G) /\
+      is_derive (fun u => vpass1 vk tape (pt3 lv sx sy sz x y u) s) z (pr3 G).
+Proof. exact gradient_correct. Qed.
+
+(* JacobianEvaluator::gradient: partial derivatives with respect to free variables *)
+Theorem C06_jacobian_correct :
+  forall (tape : list clause) (lv : nat -> R) (s1 s2 s3 : nat) (x1 x2 x3 : R) (isconst : nat -> Prop),
+    wf tape -> s1 <> s2 -> s1 <> s3 -> s2 <> s3 ->
+    (forall c, In c tape -> c_op c <> CONST_VAR) ->
+    (forall s, isconst s -> leaf tape s /\ s <> s1 /\ s <> s2 /\ s <> s3) ->
+    tape_smooth_pt tape (pt3 lv s1 s2 s3 x1 x2 x3) isconst ->
+    forall s,
+      let G := dpass1 (dkern RD true) tape (vpass1 vk tape (pt3 lv s1 s2 s3 x1 x2 x3)) (seed3 s1 s2 s3) s in
+      is_derive (fun u => vpass1 vk tape (pt3 lv s1 s2 s3 u x2 x3) s) x1 (pr1 G) /\
+      is_derive (fun u => vpass1 vk tape (pt3 lv s1 s2 s3 x1 u x3) s) x2 (pr2 G) /\
+      is_derive (fun u => vpass1 vk tape (pt3 lv s1 s2 s3 x1 x2 u) s) x3 (pr3 G).
+Proof. exact jacobian3_correct. Qed.
 
 (* the const-var barrier: variable partials are cut, spatial gradients pass *)
 Theorem C06_const_var :
-  forall (num : Type) (O : ops num) av bv ov (ad bd : dvec),
+  forall (num : Type) (O : ops num) av bv ov (ad bd : @dvec num),
     dkern O true CONST_VAR av bv ov ad bd = dzero O /\ dkern O false CONST_VAR av bv ov ad bd = ad.
-Proof. intros; split; reflexivity. Qed.
+Proof. intros; split; [apply const_var_zero | apply const_var_pass]. Qed.
 
-Print Assumptions C06_minmax_branch.
+(* at a min/max clause the kernel returns exactly one branch's gradient, tie or not *)
+Theorem C06_minmax_branch :
+  forall (num : Type) (O : ops num) cv op av bv ov (ad bd : @dvec num),
+    op = OP_MIN \/ op = OP_MAX ->
+    dkern O cv op av bv ov ad bd = ad \/ dkern O cv op av bv ov ad bd = bd.
+Proof. exact @minmax_branch. Qed.
+
+(* a point with non-zero value is inside exactly when its value is negative *)
+Theorem C06_inside_nonzero : forall v : R, v <> 0 -> (is_inside v <-> ~ 0 < v).
+Proof. exact inside_nonzero. Qed.
+
+Print Assumptions C06_kernel_correct.
+Print Assumptions C06_kernel_componentwise.
+Print Assumptions C06_deriv_correct.
+Print Assumptions C06_gradient_correct.
+Print Assumptions C06_jacobian_correct.
 Print Assumptions C06_const_var.
+Print Assumptions C06_minmax_branch.
+Print Assumptions C06_inside_nonzero.
